@@ -106,7 +106,7 @@ def pipe_mc(workdir, name, par, sbnd, P, ps, relax, maxsuper, design=None, zero=
     stage(workdir)
     mod = "MC_" + name
     with open(os.path.join(workdir, mod + ".tla"), "w") as f:
-        f.write("---- MODULE %s ----\nEXTENDS SluPipe\nParDef == %s\nSbndDef == %s\n====\n" % (mod, tl(par), ts(sbnd)))
+        f.write("---- MODULE %s ----\nEXTENDS SluPipe\nParDef == %s\nSbndDef == %s\nASSUME \\A j \\in 1..%d : (Cardinality({i \\in 1..%d : ParDef[i] = j}) # 1) => j \\in SbndDef\n====\n" % (mod, tl(par), ts(sbnd), len(par), len(par)))
     cfg = os.path.join(workdir, mod + ".cfg")
     with open(cfg, "w") as f:
         f.write("CONSTANTS N = %d P = %d PanelSize = %d Relax = %d MaxSuper = %d\n" % (len(par), P, ps, relax, maxsuper))
